@@ -21,4 +21,21 @@ ASSUMPTIONS = [
     'target is 64-bit (usize = u64)',
 ]
 
-REG = {}
+REG = {
+    'C20': {'module': 'TFV.Properties.C20',
+            'theorems': ['C20.de_seq_ok_valid', 'C20.de_map_ok_valid', 'C20.de_ser_roundtrip_seq', 'C20.de_ser_roundtrip_map', 'C20.de_ser_roundtrip_map_rev',
+                         'C20.de_seq_rejects_invalid', 'C20.de_map_rejects_invalid', 'C20.de_seq_wrong_length', 'C20.de_map_duplicate_hi', 'C20.de_map_unknown_first', 'C20.ser_shape'],
+            'clauses': {'deserializer can only produce valid values; round trip seq/map either order; missing/duplicate/unknown rejected (hand model of serialization.rs)': 'full (about the hand model; tie = correspondence + source hash)',
+                        'format shape "<hi> <sign> <|lo|>"': 'hand model definitional; parse-back and precision clauses search-only (core::fmt is not modelled)'}},
+    'C06': {'module': 'TFV.Properties.C06',
+            'theorems': ['C06.eq_symm', 'C06.eq_iff_partial_cmp_equal', 'C06.nan_word_unordered', 'C06.partial_cmp_exact', 'C06.eq_exact',
+                         'C06.partial_cmp_f64_exact', 'C06.min_exact', 'C06.max_exact', 'C06.abs_exact', 'C06.signum_exact', 'C06.copysign_exact'],
+            'clauses': {'== symmetric; == iff partial_cmp = Some(Equal); NaN word unordered (all operands)': 'full',
+                        'TwoFloat/TwoFloat and TwoFloat/f64 comparisons equal comparison of exact values (valid operands)': 'full',
+                        'min/max/abs/signum/copysign/is_sign_* exact': 'full'}},
+    'C07': {'module': 'TFV.Properties.C07',
+            'theorems': ['C07.no_overlap_iff', 'C07.is_valid_iff', 'C07.no_overlap_pf', 'C07.try_from_tuple_ok_iff', 'C07.try_from_arr_ok_iff',
+                         'C07.tuple_round_trip', 'C07.arr_round_trip'],
+            'clauses': {'no_overlap(a,b) <-> a finite and RN(a+b) == a, all bit patterns': 'full', 'is_valid <-> Valid': 'full',
+                        'TryFrom succeeds exactly on such pairs, preserves words, round trip': 'full'}},
+}
